@@ -312,6 +312,10 @@ class PolyInterp:
             if hooked is not None:
                 return hooked
         args = [self.ev(a, env) for a in n.args]
+        if self.call_hook is not None and getattr(self.call_hook, 'wants_args', False):
+            hooked = self.call_hook(n, args)       # second chance, with the evaluated arguments
+            if hooked is not None:
+                return hooked
         if fn in ('radians', 'deg_2_rad'):
             src = ast.unparse(n.args[0])
             role = self.angle_role(src)
